@@ -352,6 +352,7 @@ func runWirePart(c *Ctx, work string, sp *WireSpec) (Coverage, int, error) {
 	// 2. the real generator on every (schema, option set)
 	plans := map[string]*genrun.Plan{}
 	var planList []*genrun.Plan
+	nSplit := 0
 	for _, cs := range run.cases {
 		if sp.ForceOpts != nil {
 			cs.Opts = sp.ForceOpts
@@ -366,6 +367,18 @@ func runWirePart(c *Ctx, work string, sp *WireSpec) (Coverage, int, error) {
 			}
 			p := &genrun.Plan{Pid: cs.Pid, Sid: cs.Sid, Schema: sch, Opts: cs.Opts}
 			p.Text = run.schemas[bySid[cs.Sid]].Text
+			// a seed-rotating quarter of the schemas that have supporting definitions is generated the way a project with
+			// shared types is: the supporting definitions in an imported file, separately generated into its own package
+			if sp.GenModule == "Gen_Wire" && sp.Op != "generate" && p.Text == "" && cs.Sid < 900000 && (cs.Sid+c.Seed)%4 == 1 && !hasOpt(cs.Opts, "PrivateDefinitions") {
+				if rt, dt, ok := abs.RenderSplit(sch, "verifwork/gen/"+cs.Pid, "verifwork/gen/"+cs.Pid+"d"); ok {
+					p.Text = rt
+					p.Files = map[string]string{"dep.bop": dt}
+					dp := &genrun.Plan{Pid: cs.Pid + "d", Sid: cs.Sid, Text: dt, Opts: cs.Opts}
+					plans[dp.Pid] = dp
+					planList = append(planList, dp)
+					nSplit++
+				}
+			}
 			if dt := run.schemas[bySid[cs.Sid]].DepText; dt != "" {
 				// the go_package of each file is the import path of its package inside the workspace module
 				fill := strings.NewReplacer("@ROOTPKG@", "verifwork/gen/"+cs.Pid, "@DEPPKG@", "verifwork/gen/"+cs.Pid+"d", "@DEP2PKG@", "verifwork/gen/"+cs.Pid+"dx")
@@ -874,31 +887,32 @@ func runWirePart(c *Ctx, work string, sp *WireSpec) (Coverage, int, error) {
 			"first_event": json.RawMessage(firstEventOf(eventLines, i+1))})
 	}
 	cov := Coverage{
-		"states":                         states,
-		"transitions":                    transitions,
-		"traces_validated_against_impl":  total["ok"] + total["known"],
-		"events_not_applicable":          total["na"],
-		"events_total":                   nEvents,
-		"samples":                        samples,
-		"evaluations":                    nEvents,
-		"distinct_nontrivial":            nontrivial,
-		"rule":                           sp.Rule,
-		"cases":                          len(run.cases),
-		"cases_executed":                 executed,
-		"schemas":                        len(run.schemas),
-		"packages_generated":             len(planList),
-		"packages_rejected":              rejected,
-		"packages_uncompilable":          uncompilable,
-		"inputs_skipped_predicted_known": predictedSkipped,
-		"worker_crashes":                 st.Crashes,
-		"worker_ooms":                    st.OOMs,
-		"worker_timeouts":                st.Timeouts,
-		"commands_skipped_after_crash":   st.Skipped,
-		"gen_model_states":               gr.Distinct,
-		"design_theorems_checked":        sp.GenInvs,
-		"open_deviations":                devs,
-		"exhaustive":                     false,
-		"phase_seconds":                  map[string]float64{"gen_tlc": gr.Elapsed.Seconds(), "generate_build": buildSecs, "execute": execSecs, "judge_tlc": judgeSecs},
+		"states":                        states,
+		"transitions":                   transitions,
+		"traces_validated_against_impl": total["ok"] + total["known"],
+		"events_not_applicable":         total["na"],
+		"events_total":                  nEvents,
+		"samples":                       samples,
+		"evaluations":                   nEvents,
+		"distinct_nontrivial":           nontrivial,
+		"rule":                          sp.Rule,
+		"cases":                         len(run.cases),
+		"cases_executed":                executed,
+		"schemas":                       len(run.schemas),
+		"packages_generated":            len(planList),
+		"packages_rejected":             rejected,
+		"packages_split_into_separately_generated_imports": nSplit,
+		"packages_uncompilable":                            uncompilable,
+		"inputs_skipped_predicted_known":                   predictedSkipped,
+		"worker_crashes":                                   st.Crashes,
+		"worker_ooms":                                      st.OOMs,
+		"worker_timeouts":                                  st.Timeouts,
+		"commands_skipped_after_crash":                     st.Skipped,
+		"gen_model_states":                                 gr.Distinct,
+		"design_theorems_checked":                          sp.GenInvs,
+		"open_deviations":                                  devs,
+		"exhaustive":                                       false,
+		"phase_seconds":                                    map[string]float64{"gen_tlc": gr.Elapsed.Seconds(), "generate_build": buildSecs, "execute": execSecs, "judge_tlc": judgeSecs},
 	}
 	for k, v := range streamCov {
 		cov[k] = v
@@ -964,4 +978,13 @@ func ReplayWire(c *Ctx, raw map[string]json.RawMessage) (int, error) {
 	}
 	fmt.Printf("replay: the case no longer violates %s on the current tree\n", c.Prop)
 	return 0, nil
+}
+
+func hasOpt(opts []string, o string) bool {
+	for _, x := range opts {
+		if x == o {
+			return true
+		}
+	}
+	return false
 }
